@@ -332,8 +332,9 @@ func c11Finish(tp *Tapes, sp *c11Spec) {
 				if c11Relative(sp.Kind) && ref.Type == "inc" && g.Draw(2) == 0 {
 					// a decoy: the bare file name of a template that exists in ANOTHER directory;
 					// relative to this file it names nothing
-					for _, of := range sp.Files {
-						if path.Dir(of.Path) != path.Dir(f.Path) && of.Kind == "plain" {
+					for oi, of := range sp.Files {
+						// (only later files: should an engine wrongly serve the decoy, the graph stays acyclic)
+						if oi > i && path.Dir(of.Path) != path.Dir(f.Path) && of.Kind == "plain" {
 							cand := path.Base(of.Path)
 							if _, clash := existing[normPath(path.Join(path.Dir(f.Path), cand))]; !clash {
 								ref.Name = cand
